@@ -470,13 +470,36 @@ def pc_slice(it, o, lo, hi):
     b = n if hi is None or isinstance(hi, SNoneT) else _zi(hi)
     if it.ex.feasible(z3.Not(z3.And(a >= 0, a <= n, b >= a))):
         return None
-    t = simp(ssub(o.t, simp(a), simp(b - a)))
-    if getattr(it.ex, "inbounds_lengths", False) and z3.is_app(t) and t.decl().kind() == z3.Z3_OP_SEQ_EXTRACT and not it.ex.feasible(b > n):
+    if getattr(it.ex, "inbounds_lengths", False) and not it.ex.feasible(b > n):
         # opt-in (scenario option inbounds_lengths=True): the path condition also implies hi <= len(o), so the slice has exactly
-        # hi - lo characters; remembered for this path so that len() of the slice is that integer term instead of a clamping ITE
+        # hi - lo characters: build it without clamping (flattened through nested slices / concatenations) and remember its
+        # length for this path, so that len() of the slice is that integer term instead of a clamping ITE
         import pyvc.core as _core
-        _core.INBOUNDS[t.get_id()] = (t, simp(b - a))
-    return t
+        t = simp(_ssub_exact(it, o.t, simp(a), simp(b - a)))
+        if z3.is_app(t) and t.decl().kind() == z3.Z3_OP_SEQ_EXTRACT:
+            _core.INBOUNDS[t.get_id()] = (t, simp(b - a))
+        return t
+    return simp(ssub(o.t, simp(a), simp(b - a)))
+
+
+def _ssub_exact(it, t, a, n):
+    """substr(t, a, n) given 0 <= a and a + n <= len(t): no clamping is needed, and the slice can be pushed through nested
+    substr terms (characters of substr(base, a0, _) are those of base shifted by a0) and through concatenations when the
+    slice lies within one side (decided syntactically, else from the path condition)."""
+    if z3.is_app(t) and t.decl().kind() == z3.Z3_OP_SEQ_EXTRACT:
+        base, a0, n0 = t.children()
+        return _ssub_exact(it, base, simp(a0 + a), n)
+    if z3.is_app(t) and t.decl().kind() == z3.Z3_OP_SEQ_CONCAT:
+        cs = t.children()
+        head = cs[0]
+        rest = cs[1] if len(cs) == 2 else z3.Concat(*cs[1:])
+        lh = slen(head)
+        in_rest, in_head = simp(a >= lh), simp(a + n <= lh)
+        if z3.is_true(in_rest) or (not z3.is_false(in_rest) and not it.ex.feasible(z3.Not(in_rest))):
+            return _ssub_exact(it, rest, simp(a - lh), n)
+        if z3.is_true(in_head) or (not z3.is_false(in_head) and not it.ex.feasible(z3.Not(in_head))):
+            return _ssub_exact(it, head, a, n)
+    return z3.SubString(t, a, n)
 
 
 def getitem_v(it, o, idx):
@@ -830,10 +853,11 @@ for _T in (SBytes, SStr):
         # last index: r = rfind(s, sub) is characterised by axioms on a fresh int
         r = it.fresh("int", "rfind")
         n, m = z3.Length(s.t), z3.Length(sub.t)
-        it.ex.assume(z3.If(z3.Contains(s.t, sub.t),
-                           z3.And(r.t >= 0, r.t + m <= n, z3.SubString(s.t, r.t, m) == sub.t,
-                                  z3.Not(z3.Contains(z3.SubString(s.t, r.t + 1, n), sub.t)) if True else True),
-                           r.t == -1))
+        it.ex.assume(z3.If(m == 0, r.t == n,  # s.rfind("") == len(s) (the last-occurrence clause below would be contradictory)
+                           z3.If(z3.Contains(s.t, sub.t),
+                                 z3.And(r.t >= 0, r.t + m <= n, z3.SubString(s.t, r.t, m) == sub.t,
+                                        z3.Not(z3.Contains(z3.SubString(s.t, r.t + 1, n), sub.t)) if True else True),
+                                 r.t == -1)))
         return r
 
     @method(_T, "partition")
@@ -917,6 +941,16 @@ for _T in (SBytes, SStr):
         f = uf("replace_all", _S, _S, _S, _S)
         return type(s)(f(s.t, a.t, b.t))
 
+    @method(_T, "removesuffix")
+    def _removesuffix(it, s, suf):
+        n, m = slen(s.t), slen(suf.t)
+        return type(s)(simp(z3.If(z3.SuffixOf(suf.t, s.t), ssub(s.t, z3.IntVal(0), n - m), s.t)))
+
+    @method(_T, "removeprefix")
+    def _removeprefix(it, s, pre):
+        n, m = slen(s.t), slen(pre.t)
+        return type(s)(simp(z3.If(z3.PrefixOf(pre.t, s.t), ssub(s.t, m, n - m), s.t)))
+
     @method(_T, "__len__")
     def _len(it, s):
         return SInt(z3.Length(s.t))
@@ -947,6 +981,8 @@ def _decode(it, s, *a, **k):
         return SStr(r)
     if err == "strict":
         ok = uf(f"decodable_{enc}", _S, z3.BoolSort())(s.t)
+        if enc in ("utf-8", "utf8"):
+            it.ex.assume(z3.Implies(z3.InRe(s.t, z3.Star(z3.Range(chr(0), chr(127)))), ok))  # pure ASCII is valid UTF-8
         if not it.branch(SBool(ok)):
             it.raise_(UnicodeDecodeError, enc)
     if enc in ("utf-8", "utf8"):
@@ -1516,11 +1552,6 @@ def f_dict(it, x=None, **kw):
 def f_range(it, *a):
     vals = [it.resolve(x).concrete() for x in a]
     if any(v is None for v in vals):
-        rs = [it.resolve(x) for x in a]
-        if len(rs) <= 2 and all(isinstance(x, (SInt, SBool)) for x in rs):
-            # range(lo, hi) with symbolic bounds: a for-loop over it is unrolled to the scenario's max_unroll (labelled bounded)
-            lo, hi = (SInt(0), rs[0]) if len(rs) == 1 else (rs[0], rs[1])
-            return SConst(("srange", lo, hi))
         raise Unsupported("range with symbolic bounds (needs loop invariant)")
     return SList([SInt(i) for i in range(*vals)])
 
